@@ -44,7 +44,7 @@ def run(c):
     binary = c.go_build(HARNESS)
     if binary:
         gen(c, binary)
-    c.prove("SH.Props.C28", extra_files=["SH/Model/PromSyntax.lean", "SH/Model/PromLex.lean", "SH/Lemmas/PromSyntaxSound.lean", "SH/Lemmas/PromLexNum.lean", "SH/Lemmas/PromLexStr.lean", "SH/Lemmas/PromLexAllSteps.lean", "SH/Lemmas/PromLexChain.lean", "SH/Model/PromLexAll.lean", "SH/Gen/C28.lean"])
+    c.prove("SH.Props.C28", extra_files=["SH/Model/PromSyntax.lean", "SH/Model/PromLex.lean", "SH/Lemmas/PromSyntaxSound.lean", "SH/Lemmas/PromLexNum.lean", "SH/Lemmas/PromLexStr.lean", "SH/Lemmas/PromLexAllSteps.lean", "SH/Lemmas/PromLexChain.lean", "SH/Lemmas/PromLexFrag.lean", "SH/Model/PromLexAll.lean", "SH/Gen/C28.lean"])
     drv = c.driver(DRIVER)
     if binary and drv:
         rc, out = c.go_run(binary, ["-mode=corpus", f"-arg={CORPUS}"])
@@ -106,7 +106,9 @@ META = {
              "lex_range_suffix composes them across the `[`..`]` mode; Lemmas/PromLexChain: a derivation of justified steps through a "
              "text determines lexAll (Lexes.lexAll), and accepted_roundtrip_text_fragment_partial is the first character-level "
              "round trip - for every identifier, range and offset the text `name[<n>s] offset <m>s` is lexed to exactly its six "
-             "tokens, the duration texts denote n and m, and the token-level round trip holds. `decide` witnesses show the printer "
+             "tokens, the duration texts denote n and m, and the token-level round trip holds; lexAll_printText_fragment "
+             "(Lemmas/PromLexFrag) extends the character-level lexing by induction to a recursive fragment: names, range "
+             "selectors, parentheses, one-argument calls and ` + `. `decide` witnesses show the printer "
              "before the fix violated the property in six ways. Ties: per generated source the real ParseExpr (accept/reject, "
              "tree), the real String() (token sequence), and the real lexer on every string, number, duration and word token "
              "(ops lexstr, lexnum, lexdur, lexword), the real lexer on the WHOLE source and the WHOLE printed text (op lexall), parseDuration on every duration literal (pdur), `%ds` (durtext), `@` "
